@@ -113,6 +113,8 @@ Parser::Parser(SyntaxTree* tree)
     , isWithinKandRFuncDef_(false)
     , DEPTH_OF_EXPRS_(0)
     , DEPTH_OF_STMTS_(0)
+    , DEPTH_OF_NESTED_STMTS_(0)
+    , DEPTH_OF_DECLS_(0)
 {
     depth_ = 0;
 }
